@@ -363,38 +363,34 @@ class Dyn(Calls):
             return has(c.t, self.box(x))
         return super().contains(c, x)
 
+    _pre_base = None
+
+    def ev(self, n):
+        pb = self._pre_base
+        if pb is not None and n is pb[0]:
+            self._pre_base = None
+            return pb[1]
+        return super().ev(n)
+
     def ev_Subscript(self, n):
-        if not isinstance(n.slice, ast.Slice):
-            base = self.ev(n.value)
-            if isinstance(base, VObj):
-                hit = (self.st.ghost.get("$boxed") or {}).get(z3.simplify(base.t).get_id())
-                if hit is None:
-                    k = self.ev(n.slice)
-                    has, val = self.dict_has_uf()
-                    kt = self.box(k)
-                    if not self.spec_mode and not self.branch(has(base.t, kt)):
-                        raise PyRaise(VExc("KeyError", [k]))
-                    return VObj(val(base.t, kt))
-            # fall through with the already evaluated base: re-evaluation is side-effect free for names/attributes only
-            if isinstance(base, (VObj,)):
-                return self._subscript_on(VCont(hit[1]), n)
-            return self._subscript_on(base, n)
-        return super().ev_Subscript(n)
-
-    def _subscript_on(self, base, n):
-        saved = self.ev
-        first = [True]
-
-        def ev_once(node):
-            if node is n.value and first[0]:
-                first[0] = False
-                return base
-            return saved(node)
-        self.ev = ev_once
+        if isinstance(n.slice, ast.Slice):
+            return super().ev_Subscript(n)
+        base = self.ev(n.value)
+        if isinstance(base, VObj):
+            hit = (self.st.ghost.get("$boxed") or {}).get(z3.simplify(base.t).get_id())
+            if hit is None:
+                k = self.ev(n.slice)
+                has, val = self.dict_has_uf()
+                kt = self.box(k)
+                if not self.spec_mode and not self.branch(has(base.t, kt)):
+                    raise PyRaise(VExc("KeyError", [k]))
+                return VObj(val(base.t, kt))
+            base = VCont(hit[1])
+        self._pre_base = (n.value, base)    # the base is evaluated once; the generic subscript code picks it up
         try:
             return super().ev_Subscript(n)
         finally:
-            del self.ev
+            self._pre_base = None
 
     def compare(self, op, a, b):
         if isinstance(op, (ast.Lt, ast.LtE, ast.Gt, ast.GtE)):
